@@ -249,8 +249,14 @@ def _inject_and_probe(node, blob):
         node.assoc.postprocess_recv_messages.get()
     # residual solver-valued state must not leak into the concrete probe: after a complete framed message the
     # reassembly remainder is empty (realising it checks exactly that on every path)
-    node.assoc._recv_remainder = concrete(node.assoc._recv_remainder)
-    if len(node.assoc._recv_remainder) != 0:
+    # (every bytes-valued attribute of the association, so that the reassembly buffer is found under whatever name it has)
+    kept = 0
+    for k, v in list(vars(node.assoc).items()):
+        if isinstance(v, (bytes, bytearray)) or type(v).__name__ == "SymbolicBytes":
+            v = concrete(v)
+            setattr(node.assoc, k, v)
+            kept += len(v)
+    if kept != 0:
         return "bytes of a complete message were kept back by the receive worker"
     with untraced():          # from here on everything is concrete (the malformed delivery has been consumed)
         return _probe(node)
